@@ -24,5 +24,10 @@ claim("C01", "bit-provenance abstract interpretation (GF(2)-affine bit vectors) 
       "Trusts Go's integer conversion semantics as modelled by the interpreter, math.Float*bits as bit identities and bytes.Buffer. Mixed-operation programs are covered compositionally (per-operation exactness + counter + choke point), not enumerated.",
       "DESIGN.md §3 C01")
 
-for pid in ["C04","C05","C06","C09","C10","C11","C12","C13","C14","C15","C16","C17","C18","C19","C20"]:
+claim("C05", "reference decoders written from the protocol layout, analysed as an in-memory overlay and compared with the real writers by the lock-step wire-grammar walk; structural frame rule; bit-level CRC step + regenerated table",
+      "Decides that the common header and the bodies of the tag-count, log-sink, text, parameter, event, zip, hit-map and counter packs, as emitted by the real writers, are exactly the layout of an independent hand-written reference decoder on every joint path (order, widths, version bytes, flags, counts, nested blob, field labels); that makeData emits Short(type)+body and prepends the header (10, 0, pack pcode, Hash64Str of the per-send license if non-empty else the client's) from a fresh option struct; that WriteHeader lays out Byte Byte Long Long IntBytes(prev); and that Hash64 is bit-for-bit the table-driven CRC variant over the regenerated IEEE table. A change made consistently to the Go writer and the Go reader passes C03 but fails here.",
+      "The reference is frozen from the reviewed writers and Java field comments (it cannot be validated against a real collector here). CounterPack1's meter sub-sections (except caller-POID) are delegated to the library's own readers. Byte equality for concrete values follows from layout + C01 and is not executed.",
+      "DESIGN.md §3 C05")
+
+for pid in ["C04","C06","C09","C10","C11","C12","C13","C14","C15","C16","C17","C18","C19","C20"]:
     na(pid, "checker not built yet in this round (planned static clauses in DESIGN.md §3); not claimed until the rule is armed and tested")
